@@ -173,6 +173,10 @@ class Harness(object):
             return "failed", e
         except KeyboardInterrupt as e:
             return "keyboard", e
+        except Exception as e:
+            if self.fault_obj is e:
+                return "bare_user_exception", e        # the injected exception came out unwrapped
+            raise
 
 
 def _points(E, first, tier_cap):
